@@ -531,7 +531,7 @@ impl Property for C02 {
     }
 
     fn cases(tier: Tier) -> u32 {
-        tier.pick(8000, 300_000)
+        tier.pick(20_000, 400_000)
     }
 
     fn quick_profiles() -> &'static [&'static str] {
